@@ -468,6 +468,7 @@ type Engine struct {
 	Cfg       Config
 	Sizes     types.Sizes
 	intr      map[string]intrinsic
+	repoStubs map[string]intrinsic
 	rtErrStr  types.Type
 	Fset      *token.FileSet
 	typeCache sync.Map
